@@ -797,7 +797,9 @@ func runC09Race(s *kernel.Sim) {
 		s.SetYield("storeret", 1)
 	}
 	var mu sync.Mutex
-	latest := map[string]*Conn{} // per host: the connection of its last completed registration
+	sharedConns := map[*Conn]bool{} // connections that a second host (tried to) register over: calls on them may be for either
+	ambiguous := map[string]bool{}  // hosts whose last registration raced the close of its own connection
+	latest := map[string]*Conn{}    // per host: the connection of its last completed registration
 	for _, a := range w.Actors {
 		if a.IsHost {
 			latest[a.ID] = a.Conn
@@ -825,7 +827,7 @@ func runC09Race(s *kernel.Sim) {
 		rounds := s.Choose("hrounds", 4)
 		plan := make([]int, rounds)
 		for i := range plan {
-			plan[i] = s.Choose("hplan", 4)
+			plan[i] = s.Choose("hplan", 5)
 		}
 		s.Go("life:"+a.Name, func() {
 			cur := a.Conn
@@ -863,6 +865,23 @@ func runC09Race(s *kernel.Sim) {
 					mu.Unlock()
 					s.TaskLog("life:"+a.Name, "redial on %s -> %v", nc.Name, err)
 					cur = nc
+				case 4: // the link drops while the registration sent on it is still being processed
+					nc := w.Dial(a)
+					waits := make(chan error, 1)
+					s.GoBG("connect:"+nc.Name, func() {
+						ctx, cancel := context.WithCancel(s.Ctx)
+						_, err := nc.RP.Connect(ctx, a.ConnectReq("", ""))
+						cancel()
+						waits <- err
+					})
+					s.Gate("life:" + a.Name)
+					w.CloseConn(nc)
+					s.TaskLog("life:"+a.Name, "link %s drops with its registration in flight", nc.Name)
+					// whether that registration counted is not ours to say: the host is either still on its
+					// previous connection or nowhere
+					mu.Lock()
+					ambiguous[a.ID] = true
+					mu.Unlock()
 				default: // close the current connection (host goes away)
 					w.CloseConn(cur)
 					s.TaskLog("life:"+a.Name, "close current %s", cur.Name)
@@ -880,16 +899,27 @@ func runC09Race(s *kernel.Sim) {
 	}
 	s.Drive(kernel.DriveOpts{FIFO: true, Quiet: true, IdleCap: 10 * time.Millisecond, MaxSteps: 3000})
 	// (a) count at quiescence
-	want := 0
+	want, maybe := 0, 0
 	mu.Lock()
-	for _, c := range latest {
+	for id, c := range latest {
 		if c != nil && !c.Closed {
-			want++
+			if ambiguous[id] {
+				maybe++
+			} else {
+				want++
+			}
 		}
 	}
 	mu.Unlock()
-	if got := w.Pool.NumRemotes(); got != want {
-		s.Violate("registry", "count of connected hosts differs from hosts with a live registered connection", "at quiescence NumRemotes=%d, hosts whose latest registered connection is open: %d", got, want)
+	if got := w.Pool.NumRemotes(); got < want || got > want+maybe {
+		s.Violate("registry", "count of connected hosts differs from hosts with a live registered connection", "at quiescence NumRemotes=%d, hosts whose latest registered connection is open: %d (+%d whose last registration raced the close of its connection)", got, want, maybe)
+	}
+	// nobody is registered on a connection that has closed
+	for id, c := range w.RegistryConns() {
+		if c != nil && c.Closed {
+			s.Violate("registry", "a host is registered on a connection that has closed", "at quiescence host %s is registered on %s, which closed (requests that start now would call it)", w.N(id), c.Name)
+			break
+		}
 	}
 	// (b) a request the pool read after a connection was unregistered never writes to it;
 	// (c) nor to an older connection of a host after the reply to its newer registration was written
@@ -915,12 +945,29 @@ func runC09Race(s *kernel.Sim) {
 				continue
 			}
 			rs := readSeq(rv.Param0, rv.Seq)
+			if sharedConns[c] {
+				// more than one host is (or may be) registered here: who a call was meant for is not observable
+				if c.Unreg && rs > c.unregSeq {
+					s.Violate("instructed", "a request that started after a connection closed still called it", "connection %s was unregistered at #%d; the request of %s read at #%d wrote vipnode_whitelist to it at #%d", c.Name, c.unregSeq, w.N(rv.Param0), rs, rv.Seq)
+					return
+				}
+				continue
+			}
 			if c.Unreg && rs > c.unregSeq {
 				s.Violate("instructed", "a request that started after a connection closed still called it", "connection %s was unregistered at #%d; the request of %s read at #%d wrote vipnode_whitelist to it at #%d", c.Name, c.unregSeq, w.N(rv.Param0), rs, rv.Seq)
 				return
 			}
 			for _, nc := range w.Conns {
-				if nc.A == c.A && nc != c && nc.regSeq > 0 && rs > nc.regSeq && nc.regSeq > c.regSeq {
+				// nc is newer than c only if the pool read nc's registration after it had answered c's (two
+				// registrations of one host that overlap inside the pool have no order an observer could rely on;
+				// one that was never acknowledged - the link dropped first - has no place in it either)
+				var ncRead int64
+				for _, r := range nc.reqReads {
+					if r.Method == "vipnode_connect" && (ncRead == 0 || r.Seq < ncRead) {
+						ncRead = r.Seq
+					}
+				}
+				if nc.A == c.A && nc != c && c.regSeq > 0 && nc.regSeq > 0 && rs > nc.regSeq && ncRead > c.regSeq {
 					s.Violate("instructed", "an older connection of a reconnected host was instructed", "host %s re-registered on %s (reply written at #%d); the request of %s read at #%d still wrote to %s", c.A.Name, nc.Name, nc.regSeq, w.N(rv.Param0), rs, c.Name)
 					return
 				}
